@@ -15,5 +15,71 @@ pub(crate) fn decode<'de, T>(bytes: &'de [u8]) -> Result<T, Error>
 where
     T: Deserialize<'de>,
 {
+    check_limits(bytes)?;
     serde_bencode::from_bytes(bytes)
+}
+
+/// Maximum nesting of lists and dictionaries we are willing to decode. KRPC messages nest three
+/// levels deep; unknown extension keys may add a few more.
+const MAX_DEPTH: usize = 64;
+
+/// Guard against input that makes the bencode parser allocate or recurse out of proportion to the
+/// input: the parser allocates the declared length of a byte string before reading it and
+/// recurses once per nesting level. This walks the tokens of the first value (without allocating
+/// or recursing) and rejects the input if a byte string declares more bytes than remain or if
+/// lists/dictionaries are nested deeper than `MAX_DEPTH`. Anything else is left for the parser
+/// to accept or reject.
+fn check_limits(bytes: &[u8]) -> Result<(), Error> {
+    use serde::de::Error as _;
+
+    let mut pos = 0;
+    let mut depth = 0usize;
+
+    while let Some(&byte) = bytes.get(pos) {
+        match byte {
+            b'i' => match bytes[pos..].iter().position(|&b| b == b'e') {
+                Some(end) => pos += end + 1,
+                None => return Ok(()),
+            },
+            b'l' | b'd' => {
+                depth += 1;
+                if depth > MAX_DEPTH {
+                    return Err(Error::custom("nesting too deep"));
+                }
+                pos += 1;
+            }
+            b'e' => {
+                depth = match depth.checked_sub(1) {
+                    Some(depth) => depth,
+                    None => return Ok(()),
+                };
+                pos += 1;
+            }
+            b'0'..=b'9' => {
+                let colon = match bytes[pos..].iter().position(|&b| b == b':') {
+                    Some(offset) => pos + offset,
+                    None => return Ok(()),
+                };
+                let len: usize = match std::str::from_utf8(&bytes[pos..colon])
+                    .ok()
+                    .and_then(|s| s.parse().ok())
+                {
+                    Some(len) => len,
+                    None => return Ok(()),
+                };
+                let start = colon + 1;
+                if len > bytes.len() - start {
+                    return Err(Error::custom("byte string longer than the input"));
+                }
+                pos = start + len;
+            }
+            _ => return Ok(()),
+        }
+
+        if depth == 0 {
+            break;
+        }
+    }
+
+    Ok(())
 }
